@@ -342,7 +342,10 @@ example : cliMain { genFacts with targetReadCatch := ["OSError"] } toyX
     cliMain { genFacts with stdinReadCatch := [] } toyX
       ⟨["a", "-"], none, none, none, none, none, false⟩ ⟨"", true, some "UnicodeDecodeError"⟩
     = .exc "UnicodeDecodeError" ∧
-    WF { genFacts with targetReadCatch := ["OSError"] } = false := by decide +kernel
+    WF { genFacts with targetReadCatch := ["OSError"] } = false ∧
+    -- … while naming a class above UnicodeError is as good
+    WF { genFacts with targetReadCatch := ["OSError", "ValueError"], stdinReadCatch := ["Exception"] } = true := by
+  decide +kernel
 -- `ReprOk` holds for the toy externals on a bare word
 example : toyX.parse "python-literal" (toyX.repr "a") = .ok (toyX.strSpec "a") := by decide +kernel
 -- `c19_model_no_exec` without its hypothesis: under --spec-format python-full the outcome DOES depend on the evaluator
